@@ -17,6 +17,22 @@ def rb(rng, n):
     return bytes(rng.getrandbits(8) for _ in range(n))
 
 
+def shaped_blocks(rng, nb, bs, iv):
+    """nb blocks of data: half of the time random, otherwise drawn with repetition from a pool of one to three blocks (a repeated
+    block before a new one, A A B / A B A B / A A A), with the IV, the zero block or the all-ones block among them - ECB maps
+    equal blocks to equal blocks and CBC must not"""
+    t = rng.random()
+    if t < 0.5 or nb == 1 and t < 0.8:
+        return rb(rng, nb * bs)
+    pool = [rb(rng, bs) for _ in range(rng.choice((1, 2, 2, 3)))]
+    if t > 0.85:
+        pool.append(rng.choice((iv, bytes(bs), b"\xff" * bs)))
+    blocks = [rng.choice(pool) for _ in range(nb)]
+    if nb >= 3 and rng.random() < 0.5:
+        blocks[0], blocks[1], blocks[2] = pool[0], pool[0], pool[-1]      # A A B
+    return b"".join(blocks)
+
+
 def xor(a, b):
     return bytes(x ^ y for x, y in zip(a, b))
 
@@ -132,6 +148,32 @@ def generate(rng, tier, seed):
                 if not d.ok:
                     c.fail(f"CBC decryption of valid data raised {d.err}")
                 yield c
+            # chosen ciphertexts: the plaintext is computed backwards (reference CBC / ECB decryption with the `cryptography` package)
+            # so that the ciphertext consists of remarkable blocks - all zero, all ones, the IV itself, one block repeated, a
+            # block equal to the plaintext block before it: values a chaining variable or a sentinel might be confused with
+            for shape in ("zero-first", "zero-middle", "ones", "iv-first", "iv-later", "repeat", "all-iv"):
+                key, iv = rb(rng, ks), rb(rng, bs)
+                a_ = _A.AES(key) if alg == "aes" else _A.TripleDES(key if ks == 24 else (key + key[:8] if ks == 16 else key * 3))
+                r1_, r2_ = rb(rng, bs), rb(rng, bs)
+                target = {"zero-first": [bytes(bs), r1_, r2_], "zero-middle": [r1_, bytes(bs), r2_, bytes(bs)], "ones": [r1_, b"\xff" * bs, r2_],
+                          "iv-first": [iv, r1_], "iv-later": [r1_, r2_, iv, r1_], "repeat": [r1_, r1_, r2_, r1_], "all-iv": [iv, iv]}[shape]
+                ct = b"".join(target)
+                dcbc = _C(a_, _M.CBC(iv)).decryptor()
+                data = dcbc.update(ct) + dcbc.finalize()
+                c = Case(f"{alg}:cbc-chosen-ciphertext:{shape}", {"key": ks})
+                e = c.call(f"{mod}.encrypt_{alg}_cbc", key, iv, data)
+                d = c.call(f"{mod}.decrypt_{alg}_cbc", key, iv, ct)
+                if not e.ok or e.value != ct:
+                    c.fail(f"CBC encryption whose ciphertext is {shape}: {'raised ' + e.err if not e.ok else 'result differs from the textbook value'}")
+                if not d.ok or d.value != data:
+                    c.fail(f"CBC decryption of a ciphertext that is {shape}: {'raised ' + d.err if not d.ok else 'result differs from the textbook value'}")
+                decb = _C(a_, _M.ECB()).decryptor()
+                pe = decb.update(ct) + decb.finalize()
+                e2 = c.call(f"{mod}.encrypt_{alg}_ecb", key, pe)
+                d2 = c.call(f"{mod}.decrypt_{alg}_ecb", key, ct)
+                if not e2.ok or e2.value != ct or not d2.ok or d2.value != pe:
+                    c.fail(f"ECB with a ciphertext that is {shape}: result differs from the textbook value")
+                yield c
             key = rb(rng, ks)
             data = rb(rng, 2 * bs)
             c = Case(f"{alg}:iv-equals-first-block / data-equals-key", {"key": ks})
@@ -148,7 +190,8 @@ def generate(rng, tier, seed):
         for ks in ksizes:
             for nb in range(1, 7):
                 for _ in range(reps):
-                    key, iv, data = rb(rng, ks), rb(rng, bs), rb(rng, nb * bs)
+                    key, iv = rb(rng, ks), rb(rng, bs)
+                    data = shaped_blocks(rng, nb, bs, iv)
                     c = Case(f"{alg}:roundtrip", {"key": ks, "blocks": nb})
                     e = c.call(f"{mod}.encrypt_{alg}_ecb", key, data)
                     d = c.call(f"{mod}.decrypt_{alg}_ecb", key, data)
